@@ -16,9 +16,12 @@ What is demanded (property statement, nothing more):
 * implicit:  the increment sqrt(var dt / V) xi is added to the state the iteration starts from,
   i.e. u' solves u' = (u + incr) + dt f(u')   (closed form for the linear test rate)
 * alpha = 0 (ito), 1/2 (stratonovich), 1 (anti-ito); var, var' evaluated at the state *before* the step
-* agreement to 1e-12 relative to max(1, |u|): every step is <= 12 flops on O(1..10) numbers, three
-  steps, condition O(1): round-off <= 1e-14; anything realistic that is wrong (power of dt or V,
-  factor of the drift, order of draws) changes the result by > 1e-4
+* agreement to 1e-12 relative to max(1, |u|): every step is <= 12 flops, at most five steps, errors
+  grow like the state itself: round-off <= 1e-14 (observed <= 1e-15); anything realistic that is
+  wrong (power of dt or V, factor of the drift, order of draws) changes the result by > 1e-4.
+  The semi-implicit iteration stops on an *absolute* criterion; it is run with
+  maxerror = 1e-15 max(1, |u|) and the error that this stopping rule admits is added to the tolerance
+  (``implicit_slack``; at most 5e-11 relative, reached only where the state grows by 10^5)
 * exactly one draw of the data's shape per step: the generator handed to the equation is, after
   the run, in the state of the reference generator after ``steps`` draws
 * bit-for-bit reproducibility for equal seeds (fresh equation, re-assigned ``eq.rng``, integer seed),
@@ -361,7 +364,7 @@ def run_solve(eq, s0, case, dt, steps, *, deterministic=False, scale=1.0):
     return res.data.copy(), info["solver"]["steps"]
 
 
-_MAXREL = [0.0]
+_MAXREL = [0.0, 0.0]  # largest accepted deviation / scale; largest fraction of (tol*scale + slack) used when slack was needed
 
 
 def _close(np, got, exp, tol=TOL, slack=0.0):
@@ -369,8 +372,10 @@ def _close(np, got, exp, tol=TOL, slack=0.0):
     scale = max(1.0, float(np.max(np.abs(exp))))
     err = float(np.max(np.abs(got - exp)))
     ok = err <= tol * scale + slack
-    if ok:
+    if err <= tol * scale:
         _MAXREL[0] = max(_MAXREL[0], err / scale)  # largest accepted deviation (reported in the evidence)
+    elif ok:
+        _MAXREL[1] = max(_MAXREL[1], err / (tol * scale + slack))
     return ok, err
 
 
@@ -427,7 +432,7 @@ def sde_case(case):
     dts, stepss, seeds = case.get("dts", DTS), case.get("steps", STEPS), case.get("seeds", SEEDS)
     only = case.get("only")
     viol, keys, outs, refs, n = [], [], set(), [], 0
-    _MAXREL[0] = 0.0
+    _MAXREL[:] = [0.0, 0.0]
 
     def bad(clause, dt, steps, seed, **detail):
         c = dict(case)
@@ -587,7 +592,7 @@ def sde_case(case):
                     if np.array_equal(per_seed[s1], per_seed[s2]):
                         bad("different seeds give identical results", dt, steps, s1, other=s2)
     return {"v": viol[:10], "n": n, "keys": keys, "outs": sorted(outs), "ref": sorted(set(refs)), "nt": bool(keys),
-            "maxrel": _MAXREL[0]}
+            "maxrel": list(_MAXREL)}
 
 
 # ----------------------------------------------------------------------------------------------
@@ -620,7 +625,7 @@ def lib_case(case):
     label = f"{case['gname']}|{cname}|scalar|ito|{solver}"
     only = case.get("only")
     viol, keys, n = [], [], 0
-    _MAXREL[0] = 0.0
+    _MAXREL[:] = [0.0, 0.0]
 
     def bad(clause, dt, steps, seed, **detail):
         c = dict(case)
@@ -664,7 +669,7 @@ def lib_case(case):
                     bad("two runs with the same seed are not bitwise equal", dt, steps, seed)
                 keys.append(f"{label}|{dt}|{steps}|{seed}")
     return {"v": viol[:10], "n": n, "keys": keys, "out": "ok: stochastic update matches" if not viol else "violation",
-            "maxrel": _MAXREL[0]}
+            "maxrel": list(_MAXREL)}
 
 
 # ----------------------------------------------------------------------------------------------
@@ -764,7 +769,7 @@ def jit_case(case):
     sol = SolverBase.from_name(solver, pde=eq, backend="numba", **iter_args(solver, scale))
     stepper = sol.make_stepper(state=s0.copy(), dt=dt)
     viol, keys, n = [], [], 0
-    _MAXREL[0] = 0.0
+    _MAXREL[:] = [0.0, 0.0]
 
     def bad(clause, steps, seed, **detail):
         viol.append({"sig": f"{label}|{clause}", "msg": f"{label}: {clause}: dt={dt} steps={steps} seed={seed} {detail}",
@@ -798,7 +803,7 @@ def jit_case(case):
             prev.setdefault(steps, []).append((seed, got))
             keys.append(f"{label}|{dt}|{steps}|{seed}")
     return {"v": viol[:8], "n": n, "keys": keys, "out": "ok: compiled stochastic update matches" if not viol else "violation",
-            "maxrel": _MAXREL[0]}
+            "maxrel": list(_MAXREL)}
 
 
 def _by_name(gname):
@@ -868,7 +873,9 @@ def main(run):
     def explore(fn, cs, *, key, **kw):
         kw.setdefault("chunksize", 1)  # cases take 0.05-1 s each: no need to batch them
         res = run.explore(fn, cs, collect=True, **kw)
-        maxrel[key] = max([r.get("maxrel", 0.0) for _, r in res] + [maxrel.get(key, 0.0)])
+        mr = [r.get("maxrel") or [0.0, 0.0] for _, r in res]
+        maxrel[key] = {"within_1e-12": max(m[0] for m in mr),
+                       "semi_implicit_fraction_of_derived_bound_used": max(m[1] for m in mr)}
 
     cases = [dict(c, **bounds) for c in build_cases(tier, run.seed)]
     if want("numpy"):
@@ -911,7 +918,9 @@ def main(run):
         "('iterations converged'; the criterion of the solver is absolute)",
         "cell volumes recomputed from the grid specification (checked against grid.cell_volumes to 1e-13)",
         "field contents: uniform in +-[0.5, 1.5], derived from VERIF_SEED; the enumerated space does not depend on it",
-        "tolerance 1e-12 relative to max(1, |u|): <= 12 flops per step, <= 3 steps, O(1..10) magnitudes",
+        "tolerance 1e-12 relative to max(1, |u|): <= 12 flops per step, <= 5 steps, errors grow with the state; the "
+        "semi-implicit scheme additionally gets the error its stopping rule admits (sqrt(size) maxerror |z|/(1-|z|) per step, "
+        "propagated to the end), which matters only where the state grows by orders of magnitude (cart-tiny, field-dependent)",
         "numba backend: the generator is process-global; seeded with pde.tools.numba.random_seed and replicated draw by draw",
         "semi-implicit + field-dependent variance + non-Ito interpretation: nothing demanded (observed: drift omitted silently)",
     ]
